@@ -3834,6 +3834,10 @@ impl<'a> G<'a> {
     fn observe(&mut self, fr: &Frame) -> E {
         let t = self.next_tag();
         let mut c: Vec<E> = fr.int_vars().into_iter().map(E::Var).collect();
+        // the locals that map patterns bind: a pattern that fails part-way must leave them alone
+        // (F-C04-11, repaired in 3d805f4)
+        c.push(E::Var(fr.pk));
+        c.push(E::Var(fr.pk + 1));
         c.push(E::Var(fr.lst));
         c.push(E::Var(fr.lst));
         for g in 0..self.nglobals {
@@ -4494,7 +4498,7 @@ fn gen_prog(rng: &mut Rng) -> Prog {
         body.extend(es);
     }
     // final observations: every observable local and global
-    for v in [fr.ia, fr.ib, fr.lst, fr.c1, fr.c2] {
+    for v in [fr.ia, fr.ib, fr.lst, fr.pk, fr.pk + 1, fr.pk + 2, fr.c1, fr.c2] {
         let t = g.next_tag();
         if v == fr.c1 || v == fr.c2 {
             // caught values may be objects/lists: show them only when they are plain
